@@ -20,6 +20,9 @@ typeinv IncrementalProof by NewIncrementalProof: !isnil(self.hasher)
 
 // ---- positions --------------------------------------------------------------
 
+// a position carries its own serialisation: big-endian index, then big-endian height
+typeinv position by newPosition: abytes(self.serialized, 0, 8) == be64(self.Index) && abytes(self.serialized, 8, 10) == be16(self.Height)
+
 func newPosition
   props C01 C02 C03 C04 C12
   ensures result != nil && fresh(result)
@@ -50,8 +53,9 @@ func position.Right
 func position.Bytes
   props C01 C02 C03 C04 C12
   ensures len(result) == 10 && fresh(result)
-  // ASSUMED as yet (memoised by newPosition: big-endian index, then big-endian height)
-  assumes bytes(result) == posb(p.Index, p.Height)
+  // (from the type invariant newPosition establishes; bsplit names the instance of
+  // "a byte range is the concatenation of its parts" that joins the two halves)
+  ensures C02,C03,C04/serialised-position: bsplit(result, 8) && bytes(result) == posb(p.Index, p.Height)
 
 // ---- operations -------------------------------------------------------------
 // The visitor interfaces are shared by the server-side visitors (which write
